@@ -161,6 +161,16 @@ def classify_trace_disagreement(ctx, l, exe, n, d):
     before = len(ctx.violations)
     run_e2e(ctx, l, exe, cases, "classification n=%d" % n)
     if len(ctx.violations) == before:
+        # codomain still right: does the real traversal leave its arrays? (sanitizer build, same op)
+        try:
+            sexe = ctx.cc_harness(DRV, os.path.join(ctx.tmp, "drv_chain_san%d" % l), l, san=True)
+            rc, outs, err = vlib.run_c([sexe], [d["op"]], env={"UBSAN_OPTIONS": "print_stacktrace=0"})
+            if rc != 0 and ("AddressSanitizer" in err or "runtime error" in err):
+                ctx.violation("trace:L%d:n=%d:memory" % (l, n), "ec_eval_even_strategy leaves its arrays on a table length (sanitizer abort)",
+                              dict(level=l, isog_len=n, op=d["op"], sanitizer=err[-1200:], model=d["model"][:300], impl=d["impl"][:300]))
+        except vlib.BuildError as e:
+            ctx.log("classification: sanitizer build failed: %s" % str(e)[:200])
+    if len(ctx.violations) == before:
         ctx.violation("trace:L%d:n=%d" % (l, n), "traversal trace of ec_eval_even_strategy differs from the model (codomain still correct on the tried kernels)",
                       dict(level=l, isog_len=n, impl=d["impl"][:400], model=d["model"][:400]), found=False)
 
